@@ -97,7 +97,15 @@ type Violation struct {
 	Key     string `json:"key"` // stable class of the failure, matched against known_findings.json
 	Batch   Batch  `json:"batch"`
 	Case    int    `json:"case"`
-	Witness any    `json:"witness,omitempty"`
+	Witness json.RawMessage `json:"witness,omitempty"` // kept as raw JSON so 64-bit integers survive the parent
+}
+
+func rawJSON(v any) json.RawMessage {
+	d, err := json.Marshal(v)
+	if err != nil {
+		d, _ = json.Marshal(map[string]string{"unmarshalable_witness": err.Error()})
+	}
+	return d
 }
 
 // R collects what a child observed.
@@ -238,7 +246,7 @@ func (c *Case) Fail(key string, witness any) {
 	if witness == nil {
 		witness = c.desc
 	}
-	r.logLine(map[string]any{"t": "viol", "v": Violation{Key: key, Batch: r.batch, Case: c.Index, Witness: witness}})
+	r.logLine(map[string]any{"t": "viol", "v": Violation{Key: key, Batch: r.batch, Case: c.Index, Witness: rawJSON(witness)}})
 }
 
 // Failf is Fail with a formatted message as witness.
@@ -524,7 +532,7 @@ func runChild(p Prop, b Batch, idx int, tier, work string, only int, race bool) 
 		f.Close()
 	}
 	if d, err := os.ReadFile(errPath); err == nil {
-		res.stderr = tail(string(d), 12000)
+		res.stderr = tail(string(d), 400000)
 	}
 	if res.summary == nil && !res.timedOut {
 		res.crashed = true
@@ -643,7 +651,7 @@ func runParent(p Prop, tier string, seed int64, work, evidencePath, replayDir, f
 			saveText(replayDir, fmt.Sprintf("%s-watchdog-b%d.txt", p.ID, i), res.stderr)
 		} else if res.crashed {
 			v := Violation{Key: crashKey(res.stderr), Batch: res.batch, Case: res.lastCase,
-				Witness: map[string]any{"stderr": res.stderr}}
+				Witness: rawJSON(map[string]any{"stderr": res.stderr})}
 			violations = append(violations, v)
 			nviol++
 		}
@@ -660,7 +668,7 @@ func runParent(p Prop, tier string, seed int64, work, evidencePath, replayDir, f
 			raceKeys[key]++
 			if raceKeys[key] == 1 {
 				violations = append(violations, Violation{Key: key, Batch: res.batch, Case: -1,
-					Witness: map[string]any{"race_report": tail(rep, 6000)}})
+					Witness: rawJSON(map[string]any{"race_report": tail(rep, 6000)})})
 			}
 			nviol++
 		}
@@ -856,6 +864,9 @@ func runReplay(p Prop, path, work string, race bool) int {
 	for _, rep := range res.races {
 		fmt.Printf("RACE REPORT\n%s\n", rep)
 		code = 1
+	}
+	if os.Getenv("VERIF_SHOW_CHILD_OUTPUT") != "" {
+		fmt.Printf("---- child output ----\n%s\n", res.stderr)
 	}
 	if code == 0 {
 		fmt.Println("replay: no violation reproduced")
